@@ -6,16 +6,17 @@
     only ([Shaper._build_class_profiler]); [_build_instance_tracker] does not
     forward it, so the instance pass always reads the unfiltered stream. *)
 From Coq Require Import List Ascii String ZArith Bool.
-From Shexer Require Import Lib.PyStr Spec.Rdf.
+From Shexer Require Import Lib.PyStr Gen.Consts Spec.Rdf.
 Import ListNotations.
 
 (** one iteration of the loop:
     [str_prop.startswith(ns)] and
-    ["/" not in str_prop[len(ns):] and "#" not in str_prop[len(ns):]] *)
+    ["/" not in str_prop[len(ns):] and "#" not in str_prop[len(ns):]]
+    (the separator characters come from the source: [Consts.c_ns_child_separators]) *)
 Definition child_of_one (ns p : str) : bool :=
   if prefixb ns p then
     let rest := slice_from p (len ns) in
-    negb (contains (Str "/") rest) && negb (contains (Str "#") rest)
+    forallb (fun sep => negb (contains sep rest)) c_ns_child_separators
   else false.
 
 (** [check_if_property_belongs_to_namespace_list]: first namespace that matches wins ([return True]) *)
